@@ -354,3 +354,13 @@ def run(ck, facts):
     # the std::string-backed writer: Rust must never be left with a pointer into storage the string has released
     import c02
     c02.cpp_writer_rules(ck, "R5")
+
+
+def run_thorough(ck, facts):
+    """Thorough tier: compile-fail witnesses for the type-level clauses, and the runtime rules again on the feature-less build of diplomat-runtime."""
+    import thorough
+    thorough.witnesses(ck, "T1", "c03")
+    alt = thorough.altcfg_runtime()
+    ck.units.append("diplomat_runtime.lib built with --no-default-features (MIR)")
+    sub = C.SubCheck(ck, "T2", "the runtime-level rules hold as well for diplomat-runtime compiled without its optional features (what a no-jvm, no-log dependent links)", ['R1', 'R2', 'R2b', 'R2c', 'R3'])
+    run(sub, alt)
